@@ -2,6 +2,7 @@
 import os
 import random
 import re
+import time
 from collections import OrderedDict
 
 import h5py
@@ -31,6 +32,11 @@ THEOREMS = [
     "Nix.C20.copyIntoBlock_source",
     "Nix.C20.copySection_source",
     "Nix.C20.copyFrameIntoBlock_is_generic",
+    "Nix.C20.section_copies_address_the_object",
+    "Nix.C20.entry_point_handle_is_generic",
+    "Nix.C20.section_copy_any_handle",
+    "Nix.C20.container_handles_owned",
+    "Nix.C20.path_addressing_depends_on_handle",
     "Nix.C20.copy_complete",
     "Nix.C20.internal_links",
     "Nix.C20.ids_kept",
@@ -99,7 +105,10 @@ MANIFEST = {
                   "shallow section copy (properties re-added in order), and independence for every history of API calls "
                   "made on the copy's side or on the source's side, entity deletions (delete_all by object, file-wide) "
                   "included (one frame theorem for histories on a link-closed side; invariant SideInv) - for every "
-                  "source graph, source node, destination file, both id policies, same-file and cross-file. Tied to the code (a) by an ast "
+                  "source graph, source node, destination file, both id policies, same-file and cross-file. Handles: which "
+                  "object an entry point copies given the handle it is called with (Store/CopyHandle.lean: the source named "
+                  "by the handle's HDF5 object - copy_section, every handle - or by a path below the handle's parent - the "
+                  "other entry points, every handle whose parent owns the object). Tied to the code (a) by an ast "
                   "translator that renders H5Group.copy (rename, id regeneration, guards of the id visitor) and the "
                   "eight copy entry points as data, with theorems that the interpretation of the generated shapes is the "
                   "model for all arguments (an edited guard / flag breaks lake build on a named theorem), and (b) by "
@@ -107,7 +116,9 @@ MANIFEST = {
                   "(HDF5-level dumps of both files compared).",
     "level_note": "Trusted: Lean kernel; standard axioms; the translator harness/extract/copyshape.py and the "
                   "correspondence harness; H5Ocopy semantics are modelled, not verified; dataset contents are checked by "
-                  "the implementation-side oracle only. Partial: with regenerated ids the link lists of the copy keep the "
+                  "the implementation-side oracle only; that nixio constructs the handles of link lists, references, "
+                  "positions / extents and feature data with the owning block as parent is checked by the oracle (copies made "
+                  "with handles of every provenance), not modelled. Partial: with regenerated ids the link lists of the copy keep the "
                   "source's ids as entry names (open finding C20-fresh-ids-stale-link-names: id_named_links_kept + "
                   "counterexample); history-level independence is proved "
                   "for histories of calls on either side whose entity arguments lie on that side (source side: destination "
@@ -503,7 +514,14 @@ def correspondence(ctx):
         for k, op, m, i in compare20(ops, outs, model):
             disagreements.append(Disagreement({"corpus": case.get("name", ci), "index": k, "op": op}, m, i))
         total += len(ops)
+    # quick tier: the generated histories get ~100 s of wall time (at least 10 of them are run); a tree whose anchored
+    # sources changed doubles the number of histories, not the time
+    t_end = time.time() + 100 if ctx.quick() else None
+    ran = 0
     for h in range(n_hist):
+        if t_end is not None and h >= 10 and time.time() > t_end:
+            break
+        ran += 1
         rng = random.Random("%s/%d/%d" % (PROP, ctx.seed, h))
         ops, outs, st = run_history20(ctx, rng, steps, "h%d" % h)
         _merge(stats, st)
@@ -534,7 +552,8 @@ def correspondence(ctx):
                     "then (70% after an id-keeping same-file copy, else 30%) `del container[x]` of the source / the copy "
                     "itself or of an entity below it, and both dumps again (distribution.copies.deletes_after_copy). "
                     "non-trivial = distinct op (canonical JSON) whose result is an error or a non-empty value",
-            "samples": samples, "distribution": {"ops": dist, "impl_errors": errs, "copies": stats},
+            "samples": samples, "distribution": {"ops": dist, "impl_errors": errs, "copies": stats,
+                                                 "histories": ran, "histories_budget": n_hist},
             "disagreements": disagreements, "exhaustive": False}
 
 
@@ -705,6 +724,10 @@ def side_state(kind, ent):
 
 DEFS = [None, "a definition", "é ü", ""]
 UNITS = ["mV", "s", "Hz", None]
+# entity names that are also the names nixio gives to members of its own HDF5 groups: an entity so named must never be
+# taken for the link of that name
+INTERNAL_NAMES = ["positions", "extents", "data", "references", "features", "dimensions", "metadata", "sources", "link",
+                  "properties", "sections", "data_arrays", "tags"]
 
 
 def populate(f, rng, tag):
@@ -734,6 +757,9 @@ def populate(f, rng, tag):
             subsub.create_property("z", ["deep"])
         if rng.random() < 0.4:
             s.create_section("sub2", "t")
+        if rng.random() < 0.3:
+            nm = rng.choice(INTERNAL_NAMES)
+            s.create_section(nm, "t").create_property(nm, ["a section / property that is merely called %r" % nm])
         secs.append(s)
     if len(secs) > 1 and rng.random() < 0.7:
         secs[0].link = secs[1]
@@ -771,6 +797,11 @@ def populate(f, rng, tag):
             ticks = b.create_data_array("ticks", "t", data=np.array([0.0, 1.0, 3.0]))
             ticks.append_range_dimension_using_self()
             arrays.append(ticks)
+        for nm in rng.sample(INTERNAL_NAMES, rng.choice([0, 1, 2])):
+            x = b.create_data_array(nm, "t", data=np.array([[7.0, 7.5], [8.0, 8.5]]) + rng.random())
+            x.append_set_dimension()
+            x.append_set_dimension()
+            x.definition = "an array that is merely called %r" % nm
         df = None
         if rng.random() < 0.8:
             df = b.create_data_frame("frame", "t", col_dict=OrderedDict([("n", int), ("name", str), ("v", float)]),
@@ -823,6 +854,27 @@ def populate(f, rng, tag):
             g.data_frames.append(df)
         g.sources.append(src)
         blocks.append(b)
+        # earlier id-keeping copies inside the file: their ids (and those of everything below) are carried by two
+        # objects; the twins have diverged since
+        if rng.random() < 0.7:
+            tw = b.create_data_array(name="sig-twin", copy_from=a)
+            tw.definition = "twin of sig, relabelled"
+            tw.label = "current"
+        if rng.random() < 0.5:
+            tw = b.create_tag(name="tag0-twin", copy_from=tags[0])
+            tw.definition = "twin of tag0"
+            tw.position = [4.0, 5.0]
+    if len(secs) > 1 and rng.random() < 0.8:
+        tw = secs[0].copy_section(secs[1])                          # a root section, again below another one
+        tw.definition = "twin of %s, changed since" % secs[1].name
+        tw.create_property("added-to-the-twin", [1, 2, 3])
+        tw.sections["sub"].create_property("added-below-the-twin", ["x"])
+    if rng.random() < 0.5:
+        tw = secs[-1].copy_section(secs[0].sections["sub"], name="sub-twin")   # a subsection, elsewhere under a new name
+        tw.create_property("added-to-the-twin", [4])
+    if rng.random() < 0.4:
+        tw = f.copy_section(secs[0].sections["sub"], name="sub-at-root")
+        tw.repository = "repo://twin"
     return blocks, secs
 
 
@@ -848,6 +900,143 @@ def candidates(f):
             secs(s, s)
     secs(f, None)
     return out
+
+
+# ---- handles of every provenance ----------------------------------------------------------------------------
+#
+# The property speaks of *entities*; a program holds *handles*, and the API hands out handles for one and the same
+# entity along many ways: the owning container (by position, name, id, iteration), the member lists of groups, the
+# references of tags, `multi_tag.positions` / `.extents`, `feature.data`, the `metadata` of every entity, `Section.link`,
+# `Section.parent`, `find_sections`, `referring_*`, `inherited_properties`. A copy must be complete whatever handle of
+# the source (and of the destination parent) it was given.
+
+BLOCK_LISTS = ("data_arrays", "data_frames", "tags", "multi_tags")
+
+
+def handle_catalogue(f, want):
+    """every handle the public API hands out for objects of the kinds in `want` (block, data_array, data_frame, tag,
+    multi_tag, section, property) of an open file, keyed by the HDF5 object the handle stands for:
+    addr -> [(provenance, handle)]. The provenance is an expression over `file` that can be re-evaluated."""
+    cat = {}
+    want = set(want)
+    linked = bool(want & {"data_array", "data_frame"})
+
+    def add(label, thunk):
+        try:
+            h = thunk()
+            if h is None or not hasattr(h, "_h5group"):
+                return
+            cat.setdefault(addr(h5obj(h)), []).append((label, h))
+        except Exception:
+            return
+
+    def each(label, cont, on=True):
+        try:
+            items = list(cont)
+        except Exception:
+            return []
+        if on:
+            for i, e in enumerate(items):
+                add("%s[%d]" % (label, i), lambda i=i: cont[i])
+                add("%s[<name>]" % label, lambda e=e: cont[e.name])
+                add("%s[<id>]" % label, lambda e=e: cont[e.id])
+                add("next(iter(%s))" % label, lambda e=e: e)
+        return items
+
+    def listed(label, thunk):
+        try:
+            items = list(thunk())
+        except Exception:
+            return
+        for i, e in enumerate(items):
+            add("%s[%d]" % (label, i), lambda e=e: e)
+
+    def meta(label, e):
+        if "section" in want:
+            add(label + ".metadata", lambda: e.metadata)
+
+    def sources(label, owner):
+        for i, s in enumerate(each(label + ".sources", owner.sources, False)):
+            sl = "%s.sources[%d]" % (label, i)
+            meta(sl, s)
+            for r in ("referring_data_arrays", "referring_tags", "referring_multi_tags"):
+                if r[len("referring_"):-1] in want:
+                    listed("%s.%s" % (sl, r), lambda s=s, r=r: getattr(s, r))
+            sources(sl, s)
+
+    for bi, b in enumerate(each("file.blocks", f.blocks, "block" in want)):
+        bl = "file.blocks[%d]" % bi
+        meta(bl, b)
+        for cname in BLOCK_LISTS:
+            tagging = cname in ("tags", "multi_tags")
+            if not (cname[:-1] in want or "section" in want or (tagging and linked)):
+                continue
+            for i, e in enumerate(each("%s.%s" % (bl, cname), getattr(b, cname), cname[:-1] in want)):
+                el = "%s.%s[%d]" % (bl, cname, i)
+                meta(el, e)
+                if tagging and linked:
+                    each(el + ".references", e.references, "data_array" in want)
+                    try:
+                        feats = list(e.features)
+                    except Exception:
+                        feats = []
+                    for k, ft in enumerate(feats):
+                        add("%s.features[%d].data" % (el, k), lambda ft=ft: ft.data)
+                    if cname == "multi_tags" and "data_array" in want:
+                        add(el + ".positions", lambda e=e: e.positions)
+                        add(el + ".extents", lambda e=e: e.extents)
+        if want - {"block", "property"}:
+            for gi, g in enumerate(each(bl + ".groups", b.groups, False)):
+                gl = "%s.groups[%d]" % (bl, gi)
+                meta(gl, g)
+                for cname in BLOCK_LISTS:
+                    if cname[:-1] in want:
+                        each("%s.%s" % (gl, cname), getattr(g, cname))
+            if want - {"block", "property", "data_frame"}:
+                sources(bl, b)
+
+    def secs(label, owner):
+        for i, s in enumerate(each(label + ".sections", owner.sections, "section" in want)):
+            sl = "%s.sections[%d]" % (label, i)
+            if "section" in want:
+                add(sl + ".link", lambda s=s: s.link)
+                add(sl + ".parent", lambda s=s: s.parent)
+            if "property" in want:
+                each(sl + ".props", s.props)
+                listed(sl + ".inherited_properties()", s.inherited_properties)
+            for r in ("referring_blocks", "referring_data_arrays", "referring_tags", "referring_multi_tags"):
+                if r[len("referring_"):-1] in want:
+                    listed("%s.%s" % (sl, r), lambda s=s, r=r: getattr(s, r))
+            secs(sl, s)
+
+    secs("file", f)
+    if "section" in want:
+        listed("file.find_sections()", f.find_sections)
+    return cat
+
+
+def provenance_class(label):
+    """the provenance without positions and nesting depth: handles are drawn uniformly over these classes (else the
+    plain container lookups would dominate)"""
+    lab = re.sub(r"\[(\d+|<name>|<id>)\]", "", label)
+    m = re.match(r"next\(iter\((.*)\)\)$", lab)
+    lab = m.group(1) if m else lab
+    lab = re.sub(r"(\.sections)+", ".sections", lab)
+    return re.sub(r"(\.sources)+", ".sources", lab)
+
+
+def other_handle(rng, cat, ent, plain_share=0.3):
+    """(provenance, handle): another handle of the object `ent` stands for, of the same class, drawn over the provenance
+    classes; with `plain_share` the given handle itself"""
+    if rng.random() < plain_share:
+        return "plain (owning container, by iteration)", ent
+    alts = [(lab, h) for lab, h in cat.get(addr(h5obj(ent)), []) if type(h) is type(ent)]
+    if not alts:
+        return "plain (owning container, by iteration)", ent
+    classes = {}
+    for lab, h in alts:
+        classes.setdefault(provenance_class(lab), []).append((lab, h))
+    return rng.choice(classes[rng.choice(sorted(classes))])
 
 
 # ---- link lists: membership and lookup by id ------------------------------------------------------------
@@ -1092,9 +1281,79 @@ class Scenario:
         self.fails = []
         self.evals = 0
         self.counts = {}
+        self.last = None            # (kind, handle returned by the previous copy, owner, file index)
+        self.made = 0
+        self.current = None         # the copy call under test (first entry of a failing input)
         for i, f in enumerate(self.files):
             populate(f, rng, "ab"[i])
         self.log.append(["populate", tag])
+
+    def reopen(self):
+        """close both files and open them again (read-write): every handle in use afterwards was fetched anew"""
+        for f in self.files:
+            f.close()
+        self.files = [nixio.File.open(p, nixio.FileMode.ReadWrite) for p in self.paths]
+        self.last = None
+        self.log.append(["reopen"])
+        self.count("reopened")
+
+    def make_entity(self, kind, owner, f):
+        """a new entity of `kind` beside the chosen source; the handle *returned by create_** is the source of the copy"""
+        self.made += 1
+        nm = "made%d" % self.made
+        if kind == "block":
+            b = f.create_block(nm, "t")
+            b.create_data_array("in-" + nm, "t", data=[1.0, 2.0, 3.0])
+            return b
+        if kind == "data_array":
+            a = owner.create_data_array(nm, "t", data=np.arange(6, dtype=float).reshape(2, 3))
+            a.append_set_dimension(["r1", "r2"])
+            a.append_sampled_dimension(0.25, unit="s")
+            return a
+        if kind == "data_frame":
+            return owner.create_data_frame(nm, "t", col_dict=OrderedDict([("n", int), ("name", str), ("v", float)]),
+                                           data=[(3, "made", 0.25)])
+        if kind == "tag":
+            t = owner.create_tag(nm, "t", [0.5, 0.5])
+            t.references.append(owner.data_arrays[0])
+            t.create_feature(owner.data_arrays[1], "untagged")
+            return t
+        if kind == "multi_tag":
+            m = owner.create_multi_tag(nm, "t", positions=owner.data_arrays["pos"])
+            m.references.append(owner.data_arrays[0])
+            return m
+        if kind == "section":
+            s = (owner if owner is not None else f).create_section(nm, "t")
+            s.create_property("made-p", [1.5, 2.5])
+            s.create_section("made-sub", "t").create_property("made-q", ["x"])
+            return s
+        return owner.create_property(nm, ["v1", "v2"])
+
+    def interleave(self, kind, src, owner, f):
+        """something done between fetching the handle that will be copied and copying it: a change of the source made
+        through another handle of it (the copy must show it), a sibling created beside it, a flush"""
+        rng = self.rng
+        r = rng.random()
+        if r < 0.45:
+            v = "interleaved-%d" % rng.randrange(1000)
+            src.definition = v
+            self.log.append(["then, through the owning container's handle: source.definition = %r" % v])
+        elif r < 0.8:
+            self.made += 1
+            nm = "sibling%d" % self.made
+            if kind == "block":
+                f.create_block(nm, "t")
+            elif kind in BLOCK_CONT:
+                owner.create_data_array(nm, "t", data=[0.0])
+            elif kind == "section":
+                (owner if owner is not None else f).create_section(nm, "t")
+            else:
+                owner.create_property(nm, [0])
+            self.log.append(["then: a sibling %r is created beside the source" % nm])
+        else:
+            f.flush()
+            self.log.append(["then: flush"])
+        self.count("interleaved")
 
     def close(self):
         for f in self.files:
@@ -1110,6 +1369,8 @@ class Scenario:
 
     def fail(self, what, observed, required, site, extra=None):
         inp = {"scenario": self.tag, "history": list(self.log)}
+        if self.current is not None:
+            inp = {"failing_call": self.current, "scenario": self.tag, "history": list(self.log)}
         if extra:
             inp.update(extra)
         self.fails.append(Failure(what, inp, observed, required, site))
@@ -1134,8 +1395,15 @@ class Scenario:
         c = candidates(f)["section"]
         return rng.choice(c)[0] if c else None
 
-    def trial(self, force_kind=None):
+    def trial(self, force_kind=None, chain=False):
+        """one copy with all checks; `chain`: the source is the copy made by the previous trial (a copy of a copy: after
+        an id-keeping copy within one file the source shares its id - and often its name - with its original, from
+        which it has diverged by the mutations of the previous trial)"""
         rng = self.rng
+        if not chain:
+            self.last = None
+            if rng.random() < 0.07:
+                self.reopen()
         sf = rng.choice([0, 1])
         df = sf if rng.random() < 0.5 else 1 - sf
         cands = candidates(self.files[sf])
@@ -1143,7 +1411,40 @@ class Scenario:
         if not kinds:
             return
         kind = force_kind if force_kind in kinds else rng.choice(kinds)
-        src, src_owner = rng.choice(cands[kind])
+        chain = chain and self.last is not None and self.still_there(*self.last)
+        if chain:
+            kind = self.last[0]         # a copy of the copy made last (whatever kind is due)
+        pool = cands[kind]
+        if rng.random() < 0.35:
+            # a source whose id is carried by another object of the file as well (the result of an earlier id-keeping
+            # copy, its original, or something below either): whatever finds "the" entity by its id finds the other one
+            dups = dup_ids(self.files[sf])
+            twins = [c for c in pool if c[0].id in dups] if dups else []
+            if twins:
+                pool = twins
+                self.count("source-shares-its-id")
+        src, src_owner = rng.choice(pool) if pool else (None, None)
+        if src is None and not chain:
+            return
+        slabel = None
+        r = rng.random()
+        if chain:
+            _, src, src_owner, sf = self.last
+            df = sf if rng.random() < 0.5 else 1 - sf
+            if rng.random() < 0.5:
+                slabel = "the handle returned by the previous copy"
+            else:                       # the same object, fetched anew from its container
+                same = [e for e in self.container_of(kind, src, src_owner, self.files[sf])
+                        if addr(h5obj(e)) == addr(h5obj(src))]
+                src = same[0] if same else src
+            self.count("copy-of-the-last-copy")
+        elif r < 0.12:
+            try:
+                src = self.make_entity(kind, src_owner, self.files[sf])
+                slabel = "the handle returned by create_*"
+                self.log.append(["create", kind, src.name, "beside", getattr(src_owner, "name", "/")])
+            except Exception:       # (the block lacks what a new tag / multi-tag would link: the chosen source is kept)
+                pass
         parent = self.pick_parent(kind, df, src_owner)
         if parent is None:
             return
@@ -1153,12 +1454,30 @@ class Scenario:
         children = True if kind != "section" else rng.random() < 0.6
         cont = dest_container(kind, parent)
         existing = [e.name for e in cont]
+        # ---- the handles: of the source and of the destination parent, of any provenance --------------------------
+        hsrc = src
+        if slabel is None:
+            slabel, hsrc = other_handle(rng, handle_catalogue(self.files[sf], [kind]), src)
+        hparent, dlabel = parent, "file"
+        if not isinstance(parent, nixio.File) and rng.random() < 0.5:
+            pk = "block" if isinstance(parent, nixio.Block) else "section"
+            dlabel, hparent = other_handle(rng, handle_catalogue(self.files[df], [pk]), parent, 0.0)
+        elif not isinstance(parent, nixio.File):
+            dlabel = "plain (owning container, by iteration)"
+        self.count("handle/" + provenance_class(slabel))
+        self.handles = {"source_handle": slabel, "dest_handle": dlabel}
+        if rng.random() < 0.25:
+            try:
+                self.interleave(kind, src, src_owner, self.files[sf])
+            except Exception:
+                pass
+            existing = [e.name for e in cont]
         mode = rng.random()
         if mode < 0.2 and existing:
             name = rng.choice(existing)
             if rng.random() < 0.3 and src.name in existing:
                 name = ""
-            return self.refused_trial(kind, sf, df, src, parent, name, keep, children)
+            return self.refused_trial(kind, sf, df, hsrc, hparent, name, keep, children)
         if mode < 0.27:
             return self.wrong_kind_trial(kind, sf, df, parent, keep)
         if mode < 0.45 and src.name not in existing:
@@ -1167,16 +1486,30 @@ class Scenario:
             name = "copy%d-%s" % (len(self.log), rng.choice(["x", "é", "with space", "0f" * 16]))
             while name in existing:
                 name += "_"
-        self.copy_trial(kind, sf, df, src, src_owner, parent, name, keep, children)
+        self.copy_trial(kind, sf, df, src, src_owner, parent, name, keep, children, hsrc, hparent)
+        if not chain and self.last is not None and rng.random() < 0.5:
+            self.trial(chain=True)
+
+    def still_there(self, kind, ent, owner, fi):
+        """the handle still stands for a live entity of its container (it may have been deleted since)"""
+        try:
+            cont = self.container_of(kind, ent, owner, self.files[fi])
+            return any(addr(h5obj(x)) == addr(h5obj(ent)) for x in cont)
+        except Exception:
+            return False
 
     def describe(self, kind, sf, df, src, parent, name, keep, children):
-        return ["copy", kind, {"from_file": sf, "to_file": df, "source": src.name,
-                               "into": getattr(parent, "name", "/") if not isinstance(parent, nixio.File) else "/",
-                               "name": name, "keep_id": keep, "children": children}]
+        d = {"from_file": sf, "to_file": df, "source": src.name,
+             "into": getattr(parent, "name", "/") if not isinstance(parent, nixio.File) else "/",
+             "name": name, "keep_id": keep, "children": children}
+        d.update(getattr(self, "handles", {}))
+        self.current = ["copy", kind, d]
+        return ["copy", kind, d]
 
     def refused_trial(self, kind, sf, df, src, parent, name, keep, children):
         self.log.append(self.describe(kind, sf, df, src, parent, name, keep, children) + ["existing name"])
-        before = [(W.walk(f), h5dump(f._h5file["/"])[0]) for f in self.files]
+        api = self.rng.random() < 0.35        # (the HDF5-level dump holds everything; the API walk is the slower half)
+        before = [(W.walk(f) if api else None, h5dump(f._h5file["/"])[0]) for f in self.files]
         self.evals += 1
         self.count("refused")
         try:
@@ -1184,7 +1517,7 @@ class Scenario:
             self.fail("copy under an existing name was accepted", "copied", "refused (NameError)", "dup-accepted")
         except Exception:
             pass
-        after = [(W.walk(f), h5dump(f._h5file["/"])[0]) for f in self.files]
+        after = [(W.walk(f) if api else None, h5dump(f._h5file["/"])[0]) for f in self.files]
         for i in (0, 1):
             if before[i][0] != after[i][0]:
                 self.fail("refused copy changed file %d (API walk)" % i, W.diff(before[i][0], after[i][0], 3),
@@ -1201,9 +1534,10 @@ class Scenario:
             return
         ok = rng.choice(others)
         wrong = rng.choice(cands[ok])[0]
-        self.log.append(["copy", kind, {"from_file": sf, "to_file": df, "source_of_kind": ok, "keep_id": keep},
-                         "wrong kind"])
-        before = [(W.walk(f), h5dump(f._h5file["/"])[0]) for f in self.files]
+        self.current = ["copy", kind, {"from_file": sf, "to_file": df, "source_of_kind": ok, "keep_id": keep}, "wrong kind"]
+        self.log.append(self.current)
+        api = rng.random() < 0.35
+        before = [(W.walk(f) if api else None, h5dump(f._h5file["/"])[0]) for f in self.files]
         self.evals += 1
         self.count("wrong_kind")
         try:
@@ -1212,14 +1546,19 @@ class Scenario:
                       "refused (TypeError)", "wrong-kind-accepted")
         except Exception:
             pass
-        after = [(W.walk(f), h5dump(f._h5file["/"])[0]) for f in self.files]
+        after = [(W.walk(f) if api else None, h5dump(f._h5file["/"])[0]) for f in self.files]
         for i in (0, 1):
             if before[i] != after[i]:
-                self.fail("refused copy (wrong kind) changed file %d" % i, W.diff(before[i][0], after[i][0], 3),
+                self.fail("refused copy (wrong kind) changed file %d" % i,
+                          (W.diff(before[i][0], after[i][0], 3) if api else None) or first_diff(before[i][1], after[i][1]),
                           "unchanged", "refused-side-effect")
 
-    def copy_trial(self, kind, sf, df, src, src_owner, parent, name, keep, children):
+    def copy_trial(self, kind, sf, df, src, src_owner, parent, name, keep, children, hsrc=None, hparent=None):
+        """`src` / `parent`: handles from the owning containers (the states are read through them); `hsrc` / `hparent`:
+        the handles - of any provenance, standing for the same objects - the copy is made with"""
         rng = self.rng
+        hsrc = src if hsrc is None else hsrc
+        hparent = parent if hparent is None else hparent
         self.log.append(self.describe(kind, sf, df, src, parent, name, keep, children))
         self.evals += 1
         self.count("%s/%s/%s/%s" % (kind, "same" if sf == df else "cross", "keep" if keep else "fresh",
@@ -1232,10 +1571,11 @@ class Scenario:
         src_name = src.name
         others_before = W.walk(self.files[1 - df]) if sf != df else None
         try:
-            cp = do_copy(kind, parent, src, name, keep, children)
+            cp = do_copy(kind, hparent, hsrc, name, keep, children)
         except Exception as e:
             self.fail("copy raised %s: %s" % (type(e).__name__, str(e)[:120]), type(e).__name__, "a copy", "copy-raised")
             return
+        self.last = (kind, cp, parent if not isinstance(parent, nixio.File) else None, df)
         want = name or src_name
         # ---- name -----------------------------------------------------------------------------------
         if cp.name != want:
@@ -1302,7 +1642,7 @@ class Scenario:
                     self.fail("membership / lookup by id in the link lists of the copy differ from the source",
                               bad, "as in the source", "complete-api")
         # ---- independence ------------------------------------------------------------------------------
-        self.independence(kind, sf, df, src, src_owner, cp, parent, keep)
+        self.independence(kind, sf, df, hsrc if rng.random() < 0.5 else src, src_owner, cp, parent, keep)
 
     def check_ids(self, sid, cid, keep, pre_ids):
         if len(sid) != len(cid):
@@ -1703,20 +2043,33 @@ def known_case_stale(ctx):
     return None
 
 
+def distinct_new(failures):
+    """distinct failures (by message, digits blanked) that are not of a known class"""
+    return {(re.sub(r"\d+", "#", f.what)[:60], f.site) for f in failures if f.site not in KNOWN_SITES}
+
+
 def oracle(ctx, broken, hints):
+    # the search is bounded by scenarios AND by wall time (quick: ~1 min, ~3 min when something no longer checks), and it
+    # stops at the first few distinct failures: one concrete failing input is what is asked for
     n = ctx.budget(6, 40) * (4 if broken else 1)
     trials = ctx.budget(14, 24)
+    limit = (170 if broken else 60) if ctx.quick() else (2400 if broken else 900)
+    t_end = time.time() + limit
     failures = []
     evals = 0
     counts = {}
     kinds = ["block", "data_array", "data_frame", "tag", "multi_tag", "section", "property"]
+    ran = 0
     for k in range(n):
+        if k >= 2 and time.time() > t_end:
+            break
+        ran += 1
         rng = random.Random("C20-oracle/%d/%d" % (ctx.seed, k))
         sc = Scenario(ctx, rng, str(k))
         try:
             for j in range(trials):
                 sc.trial(force_kind=kinds[j % len(kinds)] if j < len(kinds) else None)
-                if len([x for x in sc.fails if x.site not in KNOWN_SITES]) > 6:
+                if len(distinct_new(sc.fails)) >= 3 or (j >= 7 and time.time() > t_end):
                     break
         except Exception as e:  # the scenario itself must not abort the check silently
             sc.fail("oracle scenario aborted with %s: %s" % (type(e).__name__, str(e)[:200]), type(e).__name__,
@@ -1727,7 +2080,8 @@ def oracle(ctx, broken, hints):
         evals += sc.evals
         for kk, v in sc.counts.items():
             counts[kk] = counts.get(kk, 0) + v
-        if len([f for f in failures if f.site not in KNOWN_SITES]) > 12:
+        found = len(distinct_new(failures))
+        if found >= 3 or (found and time.time() > t_end - limit + 45):
             break
     fx = fixed_cases(ctx) + delete_by_object_cases(ctx)
     failures = fx + failures          # the minimal reproducers of repaired defects first (a regression prints that one)
@@ -1741,7 +2095,8 @@ def oracle(ctx, broken, hints):
         key = (f.what, f.site)
         if key not in best or len(core.canon(f.input)) < len(core.canon(best[key].input)):
             best[key] = f
-    return {"evaluations": evals, "failures": list(best.values()), "scenarios": n, "trials": counts}
+    return {"evaluations": evals, "failures": list(best.values()), "scenarios": ran, "scenarios_budget": n,
+            "time_limit_s": limit, "trials": counts}
 
 
 def matches_known(entry, failure):
